@@ -53,6 +53,9 @@ def gen_case(rng, tier, idx):
                           "fundamentalDrift": rng.choice([0.0, 0.001, -0.0005])}
         cfg["simulation"]["markets"].append("S%d" % i)
     spots = list(cfg["simulation"]["markets"])
+    vol_spots = [s_ for s_ in spots if cfg[s_]["fundamentalVolatility"] > 0]
+    if len(vol_spots) >= 2 and rng.random() < 0.5:
+        cfg["simulation"]["fundamentalCorrelations"] = {"pairwise": [[vol_spots[0], vol_spots[1], rng.choice([-0.7, 0.4, 0.9])]]}
     if rng.random() < 0.3:
         cfg["IDX"] = {"class": "IndexMarket", "tickSize": 0.5, "markets": spots[:2], "outstandingShares": 1000,
                       "marketPrice": 100.0}
